@@ -6,6 +6,18 @@ here = os.path.dirname(os.path.dirname(os.path.abspath(__file__)))
 
 CLAIMS = {
  # id: (technique, level text, level note, design ref)
+ "C02": ("who-may-call + path analysis + finite-domain status propagation (lifecycle table) on the type-checked AST",
+         "Static necessary conditions of the concurrency bound: the in-flight counter is raised only in the dispatcher path behind `inflight < limit` of the same iteration, net increments per step path equal hand-offs, it is lowered once per completion after the worker function, every value stored into the limit is provably >= 1, and (from the extracted lifecycle table) a dispatcher goroutine is spawned only from status Initiated, which is stored only after the old signal channel was closed and re-made. Does not decide interleavings (stale dispatcher surviving Restart, concurrent TunePool).",
+         "Trusts go/types; the lifecycle table is a sequential semantics (one control call at a time); runtime.NumCPU() >= 1.",
+         "DESIGN.md §3 C02"),
+ "C03": ("path analysis + context-sensitive lockset / lock-order analysis + lifecycle table on the type-checked AST",
+         "Static necessary conditions of progress: notify after every enabling state change (14 submit paths, completion, every store of Running, limit raised, 'enqueued' announcement, purge); signal/error sends are select-with-default under the worker lock, closed once under the write lock; lock-order graph acyclic, no blocking operation under a lock; the dispatcher re-evaluates running/capacity/pending each iteration and survives step errors; every completion path keeps or retires its node; pool-node ownership typestate. Does not decide sufficiency of the wake-up protocol as a whole.",
+         "Trusts go/types, sync.Cond/channel/RWMutex semantics; lock identity is per (type, field).",
+         "DESIGN.md §3 C03"),
+ "C19": ("context-sensitive static lockset over every struct field of the library (abstract interpretation, CHA, instantiation-aware)",
+         "For every struct field reachable from the public API, goroutine bodies and callbacks: never written after publication, or one common lock (writers in write mode), or a listed hand-off whose structural side conditions are re-checked. A static over-approximation of data-race freedom for lock/atomic/channel-hand-off synchronisation; other happens-before idioms are reported, never silently accepted.",
+         "Trusts go/types, sync/atomic/channels; internal packages are not user-callable; mocks and user adapters excluded.",
+         "DESIGN.md §3 C19"),
  "C01": ("who-may-call + path/typestate analysis on the type-checked AST (abstract interpretation, callee inlining)",
          "Static necessary conditions of exactly-once execution, decided for all paths and call sites: single dequeue site and single dispatcher, one hand-off per dequeued job behind the closed test, one worker-function invocation per payload, pool-node ownership typestate, side-effect-free reject paths. It does not decide that these local rules are sufficient as a protocol.",
          "Trusts go/types, the adapter's Dequeue semantics, sync.Pool/channel semantics; sequentially reasons per path, no interleaving model.",
